@@ -26,17 +26,213 @@ use std::marker::PhantomData;
 /// below, whose message `tools/kani_run.py` classifies as UNDECIDED (a limit of the model), never as a violation.
 pub const MODEL_CAP: usize = 8;
 
+/// The backing store of every model: an **inline** array of `MODEL_CAP` slots plus a length (the `Vec` subset the
+/// models need).  Inline because CBMC treats heap objects as untyped bytes: lengths, keys and above all pointers
+/// read back from a `Vec`'s heap buffer stay symbolic during symbolic execution, so look-up branches are not pruned
+/// and the formula explodes (DESIGN.md 14.1).  A model that lives in a struct on the harness's stack is now made of
+/// typed fields only.
+pub struct MVec<T> {
+    slots: [std::mem::MaybeUninit<T>; MODEL_CAP],
+    len: usize,
+}
+impl<T> MVec<T> {
+    pub const fn new() -> Self {
+        MVec { slots: [const { std::mem::MaybeUninit::uninit() }; MODEL_CAP], len: 0 }
+    }
+    pub fn capacity(&self) -> usize {
+        MODEL_CAP
+    }
+    pub fn push(&mut self, x: T) {
+        assert!(self.len < MODEL_CAP, "verif-model-capacity: more than MODEL_CAP elements in a model collection");
+        self.slots[self.len].write(x);
+        self.len += 1;
+    }
+    pub fn pop(&mut self) -> Option<T> {
+        if self.len == 0 {
+            None
+        } else {
+            self.len -= 1;
+            // SAFETY: slot `len` was initialised and is no longer counted
+            Some(unsafe { self.slots[self.len].assume_init_read() })
+        }
+    }
+    /// `Vec::remove`: shifts the elements after `i` down by one.
+    pub fn remove(&mut self, i: usize) -> T {
+        assert!(i < self.len, "removal index out of bounds");
+        // SAFETY: i < len
+        let out = unsafe { self.slots[i].assume_init_read() };
+        let mut j = i;
+        while j + 1 < self.len {
+            // SAFETY: j + 1 < len: initialised; slot j is logically empty
+            let x = unsafe { self.slots[j + 1].assume_init_read() };
+            self.slots[j].write(x);
+            j += 1;
+        }
+        self.len -= 1;
+        out
+    }
+    /// `Vec::swap_remove`: the last element takes the place of the removed one.
+    pub fn swap_remove(&mut self, i: usize) -> T {
+        assert!(i < self.len, "swap_remove index out of bounds");
+        // SAFETY: i < len
+        let out = unsafe { self.slots[i].assume_init_read() };
+        self.len -= 1;
+        if i != self.len {
+            // SAFETY: the former last slot is initialised and no longer counted
+            let last = unsafe { self.slots[self.len].assume_init_read() };
+            self.slots[i].write(last);
+        }
+        out
+    }
+    /// `Vec::insert`: shifts the elements from `i` on up by one.
+    pub fn insert(&mut self, i: usize, x: T) {
+        assert!(i <= self.len, "insertion index out of bounds");
+        assert!(self.len < MODEL_CAP, "verif-model-capacity: more than MODEL_CAP elements in a model collection");
+        let mut j = self.len;
+        while j > i {
+            // SAFETY: j - 1 < len: initialised; slot j is logically empty
+            let y = unsafe { self.slots[j - 1].assume_init_read() };
+            self.slots[j].write(y);
+            j -= 1;
+        }
+        self.slots[i].write(x);
+        self.len += 1;
+    }
+    pub fn clear(&mut self) {
+        while self.pop().is_some() {}
+    }
+    pub fn as_slice(&self) -> &[T] {
+        // SAFETY: the first `len` slots are initialised; MaybeUninit<T> has the layout of T
+        unsafe { std::slice::from_raw_parts(self.slots.as_ptr() as *const T, self.len) }
+    }
+    pub fn as_mut_slice(&mut self) -> &mut [T] {
+        // SAFETY: as above
+        unsafe { std::slice::from_raw_parts_mut(self.slots.as_mut_ptr() as *mut T, self.len) }
+    }
+    /// `Vec::drain(range)`: removes the range and yields its elements in order (eagerly: the rest is shifted down
+    /// at once, which is what dropping a `Drain` does).
+    pub fn drain<R: std::ops::RangeBounds<usize>>(&mut self, r: R) -> MIntoIter<T> {
+        use std::ops::Bound::*;
+        let start = match r.start_bound() {
+            Included(&a) => a,
+            Excluded(&a) => a + 1,
+            Unbounded => 0,
+        };
+        let end = match r.end_bound() {
+            Included(&b) => b + 1,
+            Excluded(&b) => b,
+            Unbounded => self.len,
+        };
+        assert!(start <= end && end <= self.len, "drain range out of bounds");
+        let mut out = MVec::new();
+        let mut k = start;
+        while k < end {
+            out.push(self.remove(start));
+            k += 1;
+        }
+        out.into_iter()
+    }
+    pub fn retain_mut(&mut self, mut f: impl FnMut(&mut T) -> bool) {
+        let mut i = 0;
+        while i < self.len {
+            // SAFETY: i < len
+            if f(unsafe { self.slots[i].assume_init_mut() }) {
+                i += 1;
+            } else {
+                drop(self.remove(i));
+            }
+        }
+    }
+}
+impl<T> std::ops::Deref for MVec<T> {
+    type Target = [T];
+    fn deref(&self) -> &[T] {
+        self.as_slice()
+    }
+}
+impl<T> std::ops::DerefMut for MVec<T> {
+    fn deref_mut(&mut self) -> &mut [T] {
+        self.as_mut_slice()
+    }
+}
+impl<T> Drop for MVec<T> {
+    fn drop(&mut self) {
+        self.clear()
+    }
+}
+impl<T: Clone> Clone for MVec<T> {
+    fn clone(&self) -> Self {
+        let mut out = MVec::new();
+        let mut i = 0;
+        while i < self.len {
+            out.push(self.as_slice()[i].clone());
+            i += 1;
+        }
+        out
+    }
+}
+impl<T: std::fmt::Debug> std::fmt::Debug for MVec<T> {
+    fn fmt(&self, f: &mut std::fmt::Formatter<'_>) -> std::fmt::Result {
+        f.debug_list().entries(self.as_slice().iter()).finish()
+    }
+}
+/// Owning iterator over an `MVec` (front to back).
+pub struct MIntoIter<T> {
+    v: MVec<T>,
+    next: usize,
+    end: usize,
+}
+impl<T> IntoIterator for MVec<T> {
+    type Item = T;
+    type IntoIter = MIntoIter<T>;
+    fn into_iter(mut self) -> MIntoIter<T> {
+        let end = self.len;
+        // the iterator owns the elements from here on
+        self.len = 0;
+        MIntoIter { v: self, next: 0, end }
+    }
+}
+impl<T> Iterator for MIntoIter<T> {
+    type Item = T;
+    fn next(&mut self) -> Option<T> {
+        if self.next < self.end {
+            self.next += 1;
+            // SAFETY: slots next..end are initialised and owned by the iterator
+            Some(unsafe { self.v.slots[self.next - 1].assume_init_read() })
+        } else {
+            None
+        }
+    }
+    fn size_hint(&self) -> (usize, Option<usize>) {
+        (self.remaining(), Some(self.remaining()))
+    }
+}
+impl<T> MIntoIter<T> {
+    fn remaining(&self) -> usize {
+        self.end - self.next
+    }
+}
+impl<T> ExactSizeIterator for MIntoIter<T> {}
+impl<T> DoubleEndedIterator for MIntoIter<T> {
+    fn next_back(&mut self) -> Option<T> {
+        if self.next < self.end {
+            self.end -= 1;
+            // SAFETY: slots next..end are initialised and owned by the iterator
+            Some(unsafe { self.v.slots[self.end].assume_init_read() })
+        } else {
+            None
+        }
+    }
+}
+impl<T> Drop for MIntoIter<T> {
+    fn drop(&mut self) {
+        while self.next().is_some() {}
+    }
+}
+
 #[inline]
-pub(crate) fn push_bounded<T>(v: &mut Vec<T>, x: T) {
-    if v.capacity() == 0 {
-        v.reserve_exact(MODEL_CAP);
-    }
-    assert!(v.len() < MODEL_CAP && v.len() < v.capacity(), "verif-model-capacity: more than MODEL_CAP elements in a model collection");
-    // SAFETY: len < capacity, so the slot is allocated and unused
-    unsafe {
-        std::ptr::write(v.as_mut_ptr().add(v.len()), x);
-        v.set_len(v.len() + 1);
-    }
+pub(crate) fn push_bounded<T>(v: &mut MVec<T>, x: T) {
+    v.push(x)
 }
 
 // ------------------------------------------------------------------------------------------------
@@ -44,11 +240,11 @@ pub(crate) fn push_bounded<T>(v: &mut Vec<T>, x: T) {
 // ------------------------------------------------------------------------------------------------
 #[derive(Debug, Clone)]
 pub struct IndexSet<K> {
-    v: Vec<K>,
+    v: MVec<K>,
 }
 impl<K> Default for IndexSet<K> {
     fn default() -> Self {
-        IndexSet { v: Vec::new() }
+        IndexSet { v: MVec::new() }
     }
 }
 impl<K: PartialEq> IndexSet<K> {
@@ -111,7 +307,7 @@ impl<K: PartialEq> IndexSet<K> {
 }
 impl<K> IndexSet<K> {
     pub fn new() -> Self {
-        IndexSet { v: Vec::new() }
+        IndexSet { v: MVec::new() }
     }
     pub fn len(&self) -> usize {
         self.v.len()
@@ -139,7 +335,7 @@ impl<K> IndexSet<K> {
         self.v.iter()
     }
     /// "Clears the IndexSet in the given index range, returning those values as a drain iterator."
-    pub fn drain<R: std::ops::RangeBounds<usize>>(&mut self, r: R) -> std::vec::Drain<'_, K> {
+    pub fn drain<R: std::ops::RangeBounds<usize>>(&mut self, r: R) -> MIntoIter<K> {
         self.v.drain(r)
     }
     pub fn as_slice(&self) -> &[K] {
@@ -162,7 +358,7 @@ impl<K: PartialEq> FromIterator<K> for IndexSet<K> {
 }
 impl<K> IntoIterator for IndexSet<K> {
     type Item = K;
-    type IntoIter = std::vec::IntoIter<K>;
+    type IntoIter = MIntoIter<K>;
     fn into_iter(self) -> Self::IntoIter {
         self.v.into_iter()
     }
@@ -186,11 +382,11 @@ impl<K> std::ops::Index<usize> for IndexSet<K> {
 // ------------------------------------------------------------------------------------------------
 #[derive(Debug, Clone)]
 pub struct HashSet<K> {
-    v: Vec<K>,
+    v: MVec<K>,
 }
 impl<K> Default for HashSet<K> {
     fn default() -> Self {
-        HashSet { v: Vec::new() }
+        HashSet { v: MVec::new() }
     }
 }
 impl<K: PartialEq> HashSet<K> {
@@ -262,11 +458,11 @@ impl<K: PartialEq> FromIterator<K> for HashSet<K> {
 // ------------------------------------------------------------------------------------------------
 #[derive(Debug, Clone)]
 pub struct LinkedHashSet<K> {
-    v: Vec<K>,
+    v: MVec<K>,
 }
 impl<K> Default for LinkedHashSet<K> {
     fn default() -> Self {
-        LinkedHashSet { v: Vec::new() }
+        LinkedHashSet { v: MVec::new() }
     }
 }
 impl<K: PartialEq> LinkedHashSet<K> {
@@ -380,11 +576,11 @@ pub mod hashbrown {
 
     #[derive(Debug, Clone)]
     pub struct HashTable<T> {
-        pub(crate) v: Vec<T>,
+        pub(crate) v: super::MVec<T>,
     }
     impl<T> Default for HashTable<T> {
         fn default() -> Self {
-            HashTable { v: Vec::new() }
+            HashTable { v: super::MVec::new() }
         }
     }
     fn position<T>(v: &[T], mut eq: impl FnMut(&T) -> bool) -> Option<usize> {
@@ -399,7 +595,7 @@ pub mod hashbrown {
     }
     impl<T> HashTable<T> {
         pub const fn new() -> Self {
-            HashTable { v: Vec::new() }
+            HashTable { v: super::MVec::new() }
         }
         /// "Returns an `Entry` for an entry in the table with the given hash and which satisfies the
         /// equality function passed."
@@ -448,7 +644,7 @@ pub mod hashbrown {
         pub fn iter_mut(&mut self) -> std::slice::IterMut<'_, T> {
             self.v.iter_mut()
         }
-        pub fn drain(&mut self) -> std::vec::Drain<'_, T> {
+        pub fn drain(&mut self) -> super::MIntoIter<T> {
             self.v.drain(..)
         }
         pub fn retain(&mut self, f: impl FnMut(&mut T) -> bool) {
@@ -531,12 +727,12 @@ pub mod hashbrown {
 
     #[derive(Debug, Clone)]
     pub struct HashMap<K, V, S = ()> {
-        pub(crate) v: Vec<(K, V)>,
+        pub(crate) v: super::MVec<(K, V)>,
         _s: PhantomData<S>,
     }
     impl<K, V, S> Default for HashMap<K, V, S> {
         fn default() -> Self {
-            HashMap { v: Vec::new(), _s: PhantomData }
+            HashMap { v: super::MVec::new(), _s: PhantomData }
         }
     }
     impl<K, V, S> HashMap<K, V, S> {
@@ -609,11 +805,11 @@ pub mod hashbrown {
 // ------------------------------------------------------------------------------------------------
 #[derive(Debug, Clone)]
 pub struct FxHashMap<K, V> {
-    v: Vec<(K, V)>,
+    v: MVec<(K, V)>,
 }
 impl<K, V> Default for FxHashMap<K, V> {
     fn default() -> Self {
-        FxHashMap { v: Vec::new() }
+        FxHashMap { v: MVec::new() }
     }
 }
 pub struct MapEntry<'a, K, V> {
@@ -670,7 +866,7 @@ impl<K: PartialEq, V> FxHashMap<K, V> {
     }
     /// "Clears the map, returning all key-value pairs as an iterator."
     pub fn drain(&mut self) -> Drained<K, V> {
-        Drained { v: std::mem::take(&mut self.v) }
+        Drained { v: std::mem::replace(&mut self.v, MVec::new()) }
     }
     pub fn iter(&self) -> impl Iterator<Item = (&K, &V)> {
         self.v.iter().map(|(k, v)| (k, v))
@@ -685,10 +881,9 @@ impl<K: PartialEq, V> FxHashMap<K, V> {
         self.v.clear()
     }
 }
-/// The drained pairs, in some order (`Vec::pop` is length-based, which CBMC's constant propagation follows;
-/// `vec::IntoIter` compares pointers, which it does not: two drained pairs then already exhaust the solver's memory).
+/// The drained pairs, in some order.
 pub struct Drained<K, V> {
-    v: Vec<(K, V)>,
+    v: MVec<(K, V)>,
 }
 impl<K, V> Iterator for Drained<K, V> {
     type Item = (K, V);
@@ -717,7 +912,7 @@ impl<'a, K, V> MapEntry<'a, K, V> {
 }
 impl<K, V> IntoIterator for FxHashMap<K, V> {
     type Item = (K, V);
-    type IntoIter = std::vec::IntoIter<(K, V)>;
+    type IntoIter = MIntoIter<(K, V)>;
     fn into_iter(self) -> Self::IntoIter {
         self.v.into_iter()
     }
